@@ -102,6 +102,9 @@ impl HasSideEffects for ast::Suffix {
         )]
         match self {
             ast::Suffix::Call(_) => true,
+            ast::Suffix::Index(ast::Index::Brackets { expression, .. }) => {
+                expression.has_side_effects()
+            }
             ast::Suffix::Index(_) => false,
             _ => true,
         }
